@@ -253,7 +253,8 @@ package clusterinfo
 // The per-lookupd worker of GetLookupdTopicProducers. lockassume = monitor invariant of the function-local mutex over the captured
 // list: it only ever holds real producers (kept by this worker: ensures[only-real-producers]).
 //@ func (c *ClusterInfo) GetLookupdTopicProducers$1(addr string)
-//@   props C18
+//   (round 5, area H) also serves C17: the admin actions are carried out on the producers THIS merge finds ("on every relevant nsqd")
+//@   props C18 C17
 //@   requires c != nil && c.client != nil
 //@   lockassume r4DProducersReal(producers)
 //@   ensures[only-real-producers] r4DProducersReal(producers)
